@@ -14,7 +14,7 @@ ALL_KINDS = list(synth.KIND_SIG)
 
 
 def kind_modes(k, uniform=None):
-  if k == "UNSUP":
+  if k in ("UNSUP", "UNSUP2"):
     return [NOQ]
   if k in WEIGHT_KINDS:
     ms = [m for m in MODES_W if not (k == "EMB" and m["m"] == "SRQ") and not (k == "BMM" and m["m"] == "F16")]
@@ -63,11 +63,11 @@ def gen_sub(rnd, nops, kinds, nin=1, share=True):
         else:
           ins.append(("new", "c"))
     acts = [i for i in ins if isinstance(i, int) and i >= 0 and role[i] == "act"]
-    if k in ("EW2", "CONCAT", "CONCAT3"):
+    if k in ("EW2", "UNSUP2", "CONCAT", "CONCAT3"):
       if not acts:
         continue
       shs = [tsh[a] for a in acts]
-      if k == "EW2":
+      if k in ("EW2", "UNSUP2"):
         ns = {s[0] for s in shs} - {1}
         if len(ns) > 1:
           continue
@@ -83,7 +83,7 @@ def gen_sub(rnd, nops, kinds, nin=1, share=True):
       bad = False
       for i in ins:
         if isinstance(i, int) and i >= 0 and role[i] == "c":
-          want = min(s[1] for s in shs) if k == "EW2" else shs[0][1]
+          want = min(s[1] for s in shs) if k in ("EW2", "UNSUP2") else shs[0][1]
           if tsh[i] != (1, want):
             bad = True
       if bad:
@@ -103,7 +103,7 @@ def gen_sub(rnd, nops, kinds, nin=1, share=True):
         tbuf.append(0)
         if i[1] == "c":
           shs = [tsh[a] for a in acts]
-          tsh.append((1, min(s[1] for s in shs) if k == "EW2" else shs[0][1]))
+          tsh.append((1, min(s[1] for s in shs) if k in ("EW2", "UNSUP2") else shs[0][1]))
         else:
           tsh.append((0, 0))
         real_ins.append(len(role) - 1)
@@ -130,7 +130,8 @@ def gen_sub(rnd, nops, kinds, nin=1, share=True):
   gouts = sorted(set(sinks + extra))
   if rnd.random() < 0.12:       # the same tensor listed twice among the outputs (return y, y)
     gouts = gouts + [rnd.choice(gouts)]
-  sub = {"ops": ops, "trole": role, "tbuf": tbuf, "tsh": [list(x) for x in tsh], "gins": list(range(nin)), "gouts": gouts}
+  sub = {"ops": ops, "trole": role, "tbuf": tbuf, "tsh": [list(x) for x in tsh], "gins": list(range(nin)), "gouts": gouts,
+         "sigrev": rnd.random() < 0.3}
   u = rnd.random()
   if u < 0.15:        # activations before constants
     order = [t for t in range(len(role)) if role[t] == "act"] + [t for t in range(len(role)) if role[t] != "act"]
@@ -148,7 +149,7 @@ def relabel(sub, order):
   perm[-1] = -1
   return {"ops": [{"kind": o["kind"], "ins": [perm[t] for t in o["ins"]], "outs": [perm[t] for t in o["outs"]]} for o in sub["ops"]],
           "trole": [sub["trole"][t] for t in order], "tbuf": [sub["tbuf"][t] for t in order], "tsh": [sub["tsh"][t] for t in order],
-          "gins": [perm[t] for t in sub["gins"]], "gouts": [perm[t] for t in sub["gouts"]]}
+          "gins": [perm[t] for t in sub["gins"]], "gouts": [perm[t] for t in sub["gouts"]], "sigrev": sub.get("sigrev", False)}
 
 
 def gen(seed, min_ops=3, max_ops=8, kinds=None, nsub=1, uniform_mode=None):
